@@ -311,6 +311,22 @@ func runC10(r *Run) {
 	r.ShardSize = 100
 	r.Coq("Require Import Verif.Model.Base Verif.Model.Mode Verif.Model.Writers Verif.Model.Tree Verif.Corr.C10.", "case", "ok")
 	r.Rule = "random histories (1..40 ops) of New(name|anonymous, options...), With*/Set* (level, JSON/colour/UTC mode, time format, attrs in three forms, skip, context keys, writer ops), WithSkip, SetSkip, ResetContextKeys and package SetLevel on a growing tree incl. the default logger's subtree; per-op oracle (lookup, inheritance, fresh child, isolation of all other loggers) and final lookups (Parent/Root/Each/Sublogger) against the creation history; non-trivial = touches >= 2 loggers; distinct by op list"
+	// corpus: ONE Attrs value handed to several loggers that have no attributes yet, then more
+	// attributes set on each: the loggers must not end up sharing memory (isolation of attributes)
+	n1, n2, n3 := 1, 2, 3
+	sa := func(style int, zs ...int64) *SetOp { return &SetOp{Kind: "SAttrs", Zs: zs, Style: style} }
+	for _, st := range []int{0, 1, 2} {
+		c10One(r, snap, []Op{
+			{Kind: "ONew", P: 0, Name: &n1}, {Kind: "ONew", P: 0, Name: &n2}, {Kind: "ONew", P: 1, Name: &n3},
+			{Kind: "OSet", P: 1, S: sa(1, 1, 2)}, {Kind: "OSet", P: 2, S: sa(1, 1, 2)}, {Kind: "OWith", P: 3, S: sa(1, 1, 2)},
+			{Kind: "OSet", P: 1, S: sa(st, 3)}, {Kind: "OSet", P: 2, S: sa(st, 4)}, {Kind: "OSet", P: 4, S: sa(st, 5)},
+			{Kind: "OSet", P: 1, S: sa(st, 6, 7)},
+		}, "corpus")
+		c10One(r, snap, []Op{
+			{Kind: "ONew", P: 0, Name: &n1, Opts: []SetOp{*sa(1, 8, 9)}}, {Kind: "ONew", P: 0, Name: &n2, Opts: []SetOp{*sa(1, 8, 9)}},
+			{Kind: "OSet", P: 2, S: sa(st, 3)}, {Kind: "OSet", P: 1, S: sa(st, 4)},
+		}, "corpus")
+	}
 	for i := r.N(300, 8000); i > 0; i-- {
 		ops := genTreeOps(r.R, TreeProfile{MaxOps: 40})
 		c10One(r, snap, ops, "random")
